@@ -107,6 +107,7 @@ type e1 struct {
 	conn       *drpcconn.Conn
 	sharedMeta map[string]string // the application's long-lived metadata map (style 1)
 	byzP       *byzProxy
+	mdctx      map[int]context.Context // per task: the metadata context the next derived call starts from (style 3)
 	cli        drpc.Conn // what client scripts call: the connection itself, or a pool conn (pooled family)
 	pooled     *pooledState
 	cep, sep   *Endpoint
@@ -423,11 +424,25 @@ func (x *e1) respBytes(r *RPCSpec) []byte { return msgBytes(r.Idx, dirS2C, 0, se
 
 func (x *e1) runClientRPC(r *rpcRec) {
 	spec := r.Spec
-	ctx, cancel := context.WithCancel(context.Background())
+	var parent context.Context = context.Background()
+	if spec.HasMeta && spec.MetaStyle == 3 {
+		// derived from the previous call's metadata context of this task
+		if x.mdctx == nil {
+			x.mdctx = map[int]context.Context{}
+		}
+		if x.mdctx[spec.Task] == nil {
+			x.mdctx[spec.Task] = context.Background()
+		}
+		for _, k := range sortedKeys(spec.MetaExtras) {
+			x.mdctx[spec.Task] = drpcmetadata.Add(x.mdctx[spec.Task], k, spec.MetaExtras[k])
+		}
+		parent = x.mdctx[spec.Task]
+	}
+	ctx, cancel := context.WithCancel(parent)
 	if spec.Deadline {
 		// a context that ends the way an expired deadline does (the library only
 		// looks at Done() and Err())
-		dc := &endCtx{Context: context.Background(), done: make(chan struct{})}
+		dc := &endCtx{Context: parent, done: make(chan struct{})}
 		ctx, cancel = dc, func() { dc.end(context.DeadlineExceeded) }
 	}
 	r.cancel = func() {
@@ -441,6 +456,8 @@ func (x *e1) runClientRPC(r *rpcRec) {
 	}
 	if spec.HasMeta {
 		switch spec.MetaStyle {
+		case 3:
+			// already in the parent context
 		case 1:
 			if x.sharedMeta == nil {
 				x.sharedMeta = sharedMetaTemplate()
